@@ -100,18 +100,30 @@ inductive Pg
 def setHi (l : RL) (i : Nat) (v : Int) : RL := l.mapIdx fun j r => if j = i then (r.1, v) else r
 def setLo (l : RL) (i : Nat) (v : Int) : RL := l.mapIdx fun j r => if j = i then (v, r.2) else r
 
+/-- the `while i > 0` loop of `VariableBoundMaxPropagator.propagate`, on the ranges after the
+    first: trailing ranges whose lower bound exceeds the limit are dropped -/
+def trimEnd (mx : Int) : RL → RL
+  | [] => []
+  | r :: rs =>
+    match trimEnd mx rs with
+    | [] => if r.1 > mx then [] else [r]
+    | t => r :: t
+
+/-- cap the upper bound of the last range -/
+def capLast (mx : Int) : RL → RL
+  | [] => []
+  | [r] => [(r.1, if r.2 > mx then mx else r.2)]
+  | r :: rs => r :: capLast mx rs
+
 /-- `VariableBoundMaxPropagator.propagate` on a domain -/
 def maxProp (l : RL) (mx : Int) : RL × Bool :=
   match l with
   | [] => (l, false)
-  | r0 :: _ =>
+  | r0 :: rs =>
     if mx < r0.1 then ([], true)
     else
-      -- largest index whose lower bound is <= mx, else 0
-      let i := ((List.range l.length).reverse.find? fun j => j > 0 && decide ((l.getD j (0, 0)).1 ≤ mx)).getD 0
-      let ri := l.getD i (0, 0)
-      let (l1, c1) := if ri.2 > mx then (setHi l i mx, true) else (l, false)
-      if i < l.length - 1 then (l1.take (i + 1), true) else (l1, c1)
+      let k := capLast mx (r0 :: trimEnd mx rs)
+      (k, k != l)
 
 /-- `VariableBoundMinPropagator.propagate` on a domain (including the aliasing of the old list:
     after slicing, the lower bound of the new first range is left as it was) -/
@@ -237,7 +249,8 @@ def itemRange : RangeItem → Option (Int × Int)
       | _, _ => none
 
 def itemNonRand : RangeItem → Bool
-  | .single e => (match e with | .fld _ => true | _ => true) && isNonRand Γ e
+  | .single (.fld _) => false      -- a bare field reference (possibly a list) never qualifies
+  | .single e => isNonRand Γ e
   | .range lo hi => isNonRand Γ lo && isNonRand Γ hi
 
 /-- `visit_expr_bin` / `visit_expr_in` in phase 1 at depth 0 -/
